@@ -12,7 +12,7 @@ from concurrent.futures import ThreadPoolExecutor
 HERE = os.path.dirname(os.path.abspath(__file__))
 ROOT = os.path.dirname(HERE)
 DIRS = [os.path.join(ROOT, "selftest", "benign_indep"), os.path.join(ROOT, "selftest", "near_miss"), os.path.join(ROOT, "selftest", "structural"),
-        os.path.join(ROOT, "selftest", "algebraic")]
+        os.path.join(ROOT, "selftest", "algebraic"), os.path.join(ROOT, "selftest", "maintenance")]
 
 
 def one(path):
